@@ -8,6 +8,7 @@ import (
 	"strings"
 	"testing"
 	"testing/synctest"
+	"time"
 )
 
 // BubbleResult says how a bubble ended.
@@ -16,6 +17,7 @@ type BubbleResult struct {
 	PanicText string // panic value + stack
 	Deadlock  bool   // every goroutine of the bubble was durably blocked before f returned
 	Leftover  bool   // f returned but blocked goroutines remained
+	Stuck     bool   // the bubble made no progress for StuckAfter of real time (e.g. a goroutine waits for a sync.Mutex held by one that sleeps on the fake clock: not a durable block, so the bubble can neither advance its clock nor report a deadlock)
 	Stacks    string // all goroutine stacks at the moment of the deadlock/leftover
 }
 
@@ -58,9 +60,18 @@ func Bubble(t *testing.T, f func()) (res BubbleResult) {
 			f()
 		})
 	}()
-	<-done
+	select {
+	case <-done:
+	case <-time.After(StuckAfter):
+		// The goroutines of the bubble stay behind; the caller must not start
+		// another run in this process.
+		return BubbleResult{Stuck: true, Stacks: AllStacks()}
+	}
 	return res
 }
+
+// StuckAfter is the real time after which a run counts as stuck.
+var StuckAfter = 40 * time.Second
 
 // Wait blocks until every other goroutine of the bubble is durably blocked.
 func Wait() { synctest.Wait() }
